@@ -201,6 +201,9 @@ class VarLen(Packer):
         Unpack from VarLen packed data.
         """
         str_length = unpack_from(self.length_format, data, offset)[0] * self.base
+        if offset + self.length_size + str_length > len(data):
+            msg = f"Declared length {str_length} exceeds the remaining {len(data) - offset - self.length_size} bytes"
+            raise PackError(msg)
         unpack_list.append(data[offset + self.length_size: offset + self.length_size + str_length])
         return offset + self.length_size + str_length
 
